@@ -94,9 +94,13 @@ def analyse(prog, cg, true_value, functions=None):
     res = Result()
     flags = {v: k for k, v in fields.items()}
     funcs = functions if functions is not None else prog.functions
+    # file-local helpers that are handed the ADDRESS of a field (free-and-reset helpers) are looked at inside the
+    # inlined view of their callers, where the dereferences read as the fields themselves
+    from engine import inline
+    funcs = [inline.inlined(prog, f) for f in funcs]
     # summaries: which owning fields does a function store to (transitively)?
     direct = {}
-    for f in prog.functions:
+    for f in [inline.inlined(prog, f) for f in prog.functions]:
         s = set()
         for n in f.body.walk():
             if n.k == 'BinaryOperator' and n['op'] == '=':
